@@ -55,6 +55,34 @@ def _vertex_lists(b):
     return out
 
 
+def _vertex_lists_mapped(F, b):
+    """`[c1, .., cn].iter().map(|c| Coord { x: f(c), y: g(c) }).collect()` over a LITERAL array in the body: the Coord
+    literal of the closure instantiated for every array element, captures replaced by the captured expressions"""
+    from lib import all_closures, adaptor_of_closure, subst_closure_param, subst_upvars
+    out = []
+    for cb in all_closures(F, b):
+        r = ExprBuilder(cb).place(0, ())
+        r = r if r.kind == 'agg' else r.strip()
+        if not (r.kind == 'agg' and r.name.endswith('Coord') and len(r.args) == 2):
+            continue
+        pb, ac = adaptor_of_closure(F, b, cb)
+        if pb is not b or ac is None or ac.name != 'map':
+            continue
+        recv = ExprBuilder(b).arg(ac, 0)
+        arrs = [y for y in recv.walk() if y.kind == 'agg' and y.name == 'array' and y.args]
+        ops = [y.name.rsplit('::', 1)[-1] for y in recv.walk() if y.kind == 'call']
+        if len(arrs) != 1 or any(o not in ('iter', 'into_iter', 'copied', 'cloned', 'as_slice', 'deref', 'as_ref',
+                                          'borrow', 'unsize') for o in ops):
+            continue
+        body_e = subst_upvars(F, cb, r)
+        es = []
+        for el in arrs[0].args:
+            x = subst_closure_param(body_e, el)
+            es.append(x)
+        out.append(((ac.bb, 0, ac.ln), es))
+    return out
+
+
 def _reference_cycle(A):
     xc, yc, h, a = atom('xc'), atom('yc'), atom('height'), atom('aspect')
     c, s = fn_atom('cos', A), fn_atom('sin', A)
@@ -74,7 +102,7 @@ def polygon_rule(ctx, R):
     n = 0
     for b in _polygon_bodies(ctx, R):
         signed_remainder_rule(ctx, R, [b])
-        lists = _vertex_lists(b)
+        lists = _vertex_lists(b) or _vertex_lists_mapped(ctx.F, b)
         if not lists:
             ctx.note(R, 'polygon vertices are not built as one array of Coord literals in %s: formula not evaluated' % b.npath)
             continue
